@@ -145,3 +145,21 @@ impl<A: ToVal, B: ToVal, C: ToVal> ToVal for (A, B, C) {
         Val::Tuple(vec![self.0.to_val(), self.1.to_val(), self.2.to_val()])
     }
 }
+
+toval!(Box<str>, |x| Val::Text(x.as_bytes().to_vec()));
+toval!(Arc<str>, |x| Val::Text(x.as_bytes().to_vec()));
+toval!(secrecy_10::SecretSlice<i64>, |x| {
+    use secrecy_10::ExposeSecret;
+    Val::List(x.expose_secret().iter().map(|v| Val::BigInt(*v)).collect())
+});
+macro_rules! toval_tuple {
+    ($($T:ident $i:tt),+) => {
+        impl<$($T: ToVal),+> ToVal for ($($T,)+) {
+            fn to_val(&self) -> Val {
+                Val::Tuple(vec![$(self.$i.to_val()),+])
+            }
+        }
+    };
+}
+toval_tuple!(A 0, B 1, C 2, D 3);
+toval_tuple!(A 0, B 1, C 2, D 3, E 4, F 5, G 6, H 7, I 8, J 9, K 10, L 11, M 12, N 13, O 14, P 15);
